@@ -20,8 +20,14 @@ ASSUMPTIONS = ["the documented modern equivalents: [BranchL_M] -> [(''|=|#)Branc
 ATOMS_EXPL = ['C@@H', 'C@H', 'N+', 'O-', 'Fe++', 'Fe+2', 'N+1', 'C', 'CH', 'CH1', 'CH2', 'CH0', '13CH2', '13C', 'S+', 'H', 'N', 'B-',
               'N--', 'O--', 'Cu+2', 'Fe+++', 'Fe+3', 'C@@', 'C@', 'C:1', 'CH3:12', '2H', 'Se', 'Si', 'NH4+', 'C-', 'C+0', '0C', 'OH-',
               'P@@', 'Na+', 'Cl-', 'Br', 'I+3', 'Zn+2', 'NH+', 'NH2+', 'nH', 'c', 'se', 'Xx', 'C@@@', 'C+-', 'CH12', '', 'C++2']
-MODERN = ['[C]', '[=C]', '[N]', '[O]', '[F]', '[Branch1]', '[Ring1]', '[=Ring1]', '[#Branch2]', '[C@@H1]', '[N+1]', '[epsilon]', '[nop]',
-          '[S]', '[P]', '[=S]', '[Ring2]', '[Branch2]', '[C]', '[C]', '[S]']
+MODERN = ['[C]', '[=C]', '[N]', '[O]', '[F]', '[C@@H1]', '[N+1]', '[epsilon]', '[nop]', '[S]', '[P]', '[=S]', '[C]', '[C]', '[S]',
+          '[#N]', '[=O]', '[Cl]', '[13CH2]', '[Fe+2]', '[/C]', '[\\C]', '[O-1]']
+# every modern branch / ring symbol: the flag must not touch any of them
+for _L in "123":
+    for _p in ("", "=", "#"):
+        MODERN += ["[%sBranch%s]" % (_p, _L), "[%sRing%s]" % (_p, _L)]
+    for _p in ("-/", "/-", "\\/", "//", "\\\\", "-\\", "\\-", "/\\"):
+        MODERN.append("[%sRing%s]" % (_p, _L))
 
 
 def shards(tier):
